@@ -286,13 +286,14 @@ def gen_markers(rng):
     contiguous in the marker list (no markers of OTHER qubits in between: that class belongs to defect F1 / C03)."""
     nq = int(rng.integers(1, 5))
     ncut = int(rng.integers(1, 4))
-    # choose marker qubits as contiguous runs
+    # choose marker qubits as contiguous runs (distinct qubits per run)
+    order = [int(x) for x in rng.permutation(nq)]
     qs = []
-    while len(qs) < ncut:
-        q = int(rng.integers(0, nq))
-        if q in qs:
-            continue
-        run = int(rng.integers(1, ncut - len(qs) + 1))
+    for pos, q in enumerate(order):
+        left = ncut - len(qs)
+        if left <= 0:
+            break
+        run = left if pos == len(order) - 1 else int(rng.integers(1, left + 1))
         qs.extend([q] * run)
     ngates = int(rng.integers(0, 7))
     gates = [rand_gate(rng, nq) for _ in range(ngates)]
@@ -439,10 +440,10 @@ def emit_problem(w, rng, stream, desc, per_problem):
 def generate(rng, tier, outdir):
     w = CaseWriter(outdir, IMPORTS, case_types={"chk_subexperiment": "c19_case"})
     quick = tier == "quick"
-    n_markers = 60 if quick else 900
-    n_fresh = 24 if quick else 300
-    n_reuse = 24 if quick else 300
-    per_problem = 8 if quick else 16
+    n_markers = 52 if quick else 520
+    n_fresh = 20 if quick else 160
+    n_reuse = 20 if quick else 160
+    per_problem = 8 if quick else 12
 
     for desc in FIXED:
         emit_problem(w, rng, "fixed", dict(desc), 64)
@@ -493,7 +494,7 @@ def generate(rng, tier, outdir):
         "re-use qubits. Observables: 1..3 Pauli strings, dense / single-letter / identity-only (identity on whole partitions); "
         "flows: partition_problem with automatic labels, with explicit random A/B labels (crossing gates are cut too), and the "
         "unseparated call; budgets inf and 1..6. Per problem the sampling is replayed under the same numpy seed and for up to "
-        "8 (thorough 16) (partition, sample, group) triples - every (partition, group) at least once, every identity group - the "
+        "8 (thorough 12) (partition, sample, group) triples - every (partition, group) at least once, every identity group - the "
         "pre-pass circuit is rebuilt through _append_measurement_register / decompose_qpd_instructions(inplace=True) and "
         "compared, together with the returned subexperiment, with Model/ResetFree.v. distinct = distinct Coq case literal; "
         "non-trivial = the decomposed circuit contains at least one reset"
